@@ -368,6 +368,14 @@ def call_builtin(ex, name, args, kwargs, node):
             return V.SetV(args[0].arr)        # set(s) of a set: a copy with the same elements
         raise OutOfSubset("set(iterable)", node)
     if name == "all" or name == "any":
+        if isinstance(args[0], Seq) and not args[0].concrete:
+            # all / any over a sequence of symbolic length (e.g. a list comprehension of conditions over a symbolic list): a bounded quantifier over the positions
+            sq = args[0]
+            q = z3.Int("aa!%d" % len(ex.trace))
+            el = z3.Select(sq.arr, q)
+            holds = el if z3.is_bool(el) else el != 0
+            rng_ = z3.And(q >= 0, q < V.to_z3(sq.len()))
+            return z3.ForAll([q], z3.Implies(rng_, holds)) if name == "all" else z3.Exists([q], z3.And(rng_, holds))
         items = ex.concrete_items(args[0], node)
         ts = [ex.truth(x) for x in items]
         if name == "all":
